@@ -9,7 +9,18 @@ members' sockets, delivers signals, and reports raw observations as JSON:
   * for every tracker incarnation seen: alive?, the real writer set of its pipe (members whose
     /proc/<pid>/fd holds the pipe inode the tracker reads from);
   * existence of the tracked files; /dev/shm/sem.loky-<pid>-* per member pid;
-  * at the end: stderr of the tree ("leaked" reports of the trackers), after every tracker exited.
+  * at the end: stderr of the tree ("leaked" reports of the trackers), after every tracker exited;
+  * every tracker process launched anywhere in the tree, numbered in launch order: the members report the pids
+    they launched (`launched`, recorded around `spawnv_passfds`), and every snapshot scans the process tree
+    below this coordinator for tracker processes nobody reported (`ntrk` = incarnations seen so far).
+
+Step kinds beyond spawn / op / opsig / sig / exit / new / del / x*: a trailing "thread" on op / opsig (the
+operation, hence a tracker launch, is done by a non-main thread of the member); `pop` / `pnew` (k threads of a
+member do a tracked operation / create a primitive at the same time, optionally with a delay in
+`spawnv_passfds` and `_check_alive`); a 6th element `["file", f]` / `["lock", o]` on spawn (the re-imported main
+module of a `loky_init_main` child registers a file / creates a Lock at import time); `killfin` / `killexit` (the
+member SIGKILLs itself inside a SemLock finalizer after k clean-up primitives); `cfg.warn` = "flag" | "env" |
+"env-user" starts the root with `-W error` / the tree with PYTHONWARNINGS=error / error::UserWarning.
 
 Every wait has a deadline; a missed deadline is reported as {"infra": ...} (exit status 3), which the
 harness turns into `common.Infra`.  The process is a child sub-reaper, so orphans of killed members are
@@ -179,9 +190,21 @@ class Coordinator:
         if os.environ.get("VERIF_REPO"):
             env["PYTHONPATH"] = os.environ["VERIF_REPO"] + os.pathsep + env["PYTHONPATH"]
         env.pop("PYTHONWARNINGS", None)
+        # configuration of the scenario: warnings turned into errors in the root (`-W error`: forwarded to the
+        # trackers the root launches through _args_from_interpreter_flags) or in the whole tree (environment)
+        warn = (self.scen.get("cfg") or {}).get("warn")
+        flags = []
+        if warn == "flag":
+            flags = ["-W", "error"]
+        elif warn == "env":
+            env["PYTHONWARNINGS"] = "error"
+        elif warn == "env-user":
+            env["PYTHONWARNINGS"] = "error::UserWarning"
+        elif warn:
+            raise InfraError(f"unknown warnings configuration {warn!r}")
         err = open(self.errpath, "wb")
         self.rootproc = subprocess.Popen(
-            [sys.executable, "-m", "harness.realproc.tt_root", self.sockpath, "0"],
+            [sys.executable] + flags + ["-m", "harness.realproc.tt_root", self.sockpath, "0"],
             cwd=ROOT, env=env, stdin=subprocess.DEVNULL, stdout=err, stderr=err)
         err.close()
         self.parent[0] = None
@@ -201,7 +224,13 @@ class Coordinator:
             self.member_dead(mid)
             return {"ok": False, "exc": "MemberDied", "msg": f"member {mid} ended while serving {cmd.get('cmd')}",
                     "warnings": [], "trk": [None, None]}
+        self.note_launched(rep)
         return rep
+
+    def note_launched(self, rep):
+        """tracker processes the member launched while serving the request: numbered in launch order"""
+        for pid in (rep or {}).get("launched") or []:
+            self.tracker_index(pid)
 
     # ---------------------------------------------------------------- observers
     def tracker_index(self, pid):
@@ -301,13 +330,49 @@ class Coordinator:
                 wait_until(lambda: not alive(t["pid"]),
                            f"tracker {t['pid']} to finish after its last writer closed the pipe")
 
+    def trackers_in_tree(self):
+        """pids of every live loky resource tracker process below this coordinator (it is the sub-reaper of the
+        tree: trackers are children of members, or re-parented here once their launcher is gone)"""
+        ppid, cmd = {}, {}
+        for d in os.listdir("/proc"):
+            if not d.isdigit():
+                continue
+            try:
+                with open(f"/proc/{d}/stat") as f:
+                    st = f.read()
+                rest = st[st.rindex(")") + 2:].split()
+                if rest[0] in "ZX":
+                    continue
+                ppid[int(d)] = int(rest[1])
+            except (OSError, ValueError, IndexError):
+                pass
+        me = os.getpid()
+        out = []
+        for pid in ppid:
+            q, hops = pid, 0
+            while q in ppid and q != me and hops < 64:
+                q, hops = ppid[q], hops + 1
+            if q != me or pid == me:
+                continue
+            try:
+                with open(f"/proc/{pid}/cmdline", "rb") as f:
+                    cl = f.read()
+            except OSError:
+                continue
+            if b"loky.backend.resource_tracker import main" in cl:
+                out.append(pid)
+        return sorted(out)
+
     def snapshot(self):
         reap()
-        snap = {"alive": [], "writers": {}, "files": [], "sems": {}}
+        for pid in self.trackers_in_tree():
+            self.tracker_index(pid)        # a tracker nobody told us about is an incarnation all the same
+        snap = {"alive": [], "writers": {}, "files": [], "sems": {}, "ntrk": len(self.trackers)}
         for i, t in enumerate(self.trackers):
             if t["pid"] is not None and alive(t["pid"]):
                 snap["alive"].append(i)
                 snap["writers"][str(i)] = self.writers_of(t)
+        snap["ntrk"] = len(self.trackers)
         for fid, path in sorted(self.files.items()):
             if os.path.exists(path):
                 snap["files"].append(fid)
@@ -358,6 +423,19 @@ class Coordinator:
         except OSError:
             pass
 
+    def relaunched_at_exit(self):
+        """a finalizer running while a member ends may find its tracker dead and relaunch it: the warning goes
+        to stderr; the incarnations launched that way are the tracker processes of the tree nobody reported"""
+        n = self.new_stderr().count("died unexpectedly, relaunching")
+        known = {t["pid"] for t in self.trackers}
+        fresh = [pid for pid in self.trackers_in_tree() if pid not in known]
+        for i in range(n):
+            if i < len(fresh):
+                self.tracker_index(fresh[i])
+            else:
+                self.trackers.append({"pid": None, "inode": None, "rfd": None})
+        return n
+
     def step(self, st):
         kind = st[0]
         o = {"step": st}
@@ -371,11 +449,17 @@ class Coordinator:
             return o
         if kind == "start":
             h = self.start_root()
+            self.note_launched(h)
             o["pid"] = h["pid"]
             o["trk"] = self.tracker_index(h["trk"][0])
         elif kind == "spawn":
-            _, p, c, method, passing = st
-            rep = self.call(p, {"cmd": "spawn", "child": c, "method": method, "pass": passing})
+            _, p, c, method, passing = st[:5]
+            cmd = {"cmd": "spawn", "child": c, "method": method, "pass": passing}
+            imp = st[5] if len(st) > 5 else None
+            if imp:
+                cmd["import"] = ({"kind": "file", "path": self.path_of(imp[1])} if imp[0] == "file"
+                                 else {"kind": "lock", "o": imp[1]})
+            rep = self.call(p, cmd)
             o["act"] = rep
             o["trk"] = self.tracker_index(rep["trk"][0])
             if rep.get("ok"):
@@ -383,6 +467,19 @@ class Coordinator:
                 self.first_sight(rep["pid"])
                 h = self.accept(c)
                 self.parent[c] = p
+                hi = h.get("import")
+                if imp and not h.get("died_at_startup"):
+                    if not hi:
+                        raise InfraError(f"step {st}: the child did not re-import the scenario's main module")
+                    # trackers in launch order: what the child launched while importing, then the rest
+                    for pid in hi.get("launched") or []:
+                        self.tracker_index(pid)
+                    o["import"] = {"ok": hi.get("ok"), "exc": hi.get("exc"), "msg": hi.get("msg"),
+                                   "trk_before": self.tracker_index(hi["trk_before"][0]),
+                                   "trk": self.tracker_index(hi["trk"][0]),
+                                   "launched": len(hi.get("launched") or []),
+                                   "warnings": hi.get("warnings", []), "names": hi.get("names", [])}
+                self.note_launched(h)
                 o["child_trk"] = self.tracker_index(h["trk"][0])
                 o["child_fd_same"] = h["trk"][1] == rep["trk"][1]
                 o["child_ppid_ok"] = h["ppid"] == self.pids[p]
@@ -393,9 +490,12 @@ class Coordinator:
             cmd = {"cmd": "op", "op": op, "path": self.path_of(fid)}
             if kind == "opsig":
                 cmd["sig"] = st[4]
+            if st[-1] in ("thread", "pool") and len(st) == (6 if kind == "opsig" else 5):
+                cmd["thread"] = st[-1]
             rep = self.call(p, cmd)
             o["act"] = rep
             o["trk"] = self.tracker_index(rep["trk"][0])
+            o["launched"] = len(rep.get("launched") or [])
             if kind == "opsig" and o["trk"] is not None:
                 t = self.trackers[o["trk"]]
                 if st[4] == "kill":
@@ -403,6 +503,32 @@ class Coordinator:
                 else:
                     self.wait_tracker_booted(t)
                     time.sleep(0.2)
+        elif kind in ("pop", "pnew"):
+            p = st[1]
+            slow = {"spawn": 0.25, "probe": 0.15} if st[4] else None
+            if kind == "pop":
+                cmd = {"cmd": "pop", "op": st[2], "paths": [self.path_of(f) for f in st[3]], "slow": slow}
+            else:
+                cmd = {"cmd": "pnew", "os": st[2], "kind": st[3], "slow": slow}
+            rep = self.call(p, cmd, deadline=3 * DEADLINE)
+            o["act"] = rep
+            o["trk"] = self.tracker_index(rep["trk"][0])
+            o["launched"] = len(rep.get("launched") or [])
+            o["thr_trks"] = [self.tracker_index(t[0]) if t else None for t in rep.get("thr_trks") or []]
+            if rep.get("hung"):
+                raise InfraError(f"step {st}: threads {rep['hung']} of member {p} did not finish their operation")
+        elif kind in ("killfin", "killexit"):
+            p = st[1]
+            cmd = {"cmd": kind, "k": st[3] if kind == "killfin" else st[2]}
+            if kind == "killfin":
+                cmd["o"] = st[2]
+            self.new_stderr()
+            self.chans[p].send(cmd)
+            ack = self.chans[p].recv(what=f"ack of {kind}")
+            self.note_launched(ack)
+            o["act"] = {"ok": True, "names": (ack or {}).get("names", []), "warnings": []}
+            self.member_dead(p)
+            o["exit_warns"] = self.relaunched_at_exit()
         elif kind == "info":
             rep = self.call(st[1], {"cmd": "info"})
             o["act"] = rep
@@ -435,10 +561,7 @@ class Coordinator:
                 os.kill(self.pids[p], SIGS[how])
             self.member_dead(p)
             # a finalizer running at exit may find its tracker dead and relaunch it: the warning goes to stderr
-            n = self.new_stderr().count("died unexpectedly, relaunching")
-            o["exit_warns"] = n
-            for _ in range(n):
-                self.trackers.append({"pid": None, "inode": None, "rfd": None})
+            o["exit_warns"] = self.relaunched_at_exit()
         elif kind in ("new", "del"):
             _, p, ob = st[:3]
             cmd = {"cmd": kind, "o": ob}
@@ -499,6 +622,8 @@ class Coordinator:
             pass
         else:
             raise InfraError(f"unknown step {st}")
+        if isinstance(o.get("act"), dict):
+            o.setdefault("launched", len(o["act"].get("launched") or []))
         if kind == "end":
             for mid, pid in self.pids.items():
                 if alive(pid):
